@@ -2,6 +2,7 @@
 pyhf patchset provides a user-friendly interface for interacting with patchsets.
 """
 
+import copy
 import logging
 import jsonpatch
 from pyhf import exceptions
@@ -58,6 +59,16 @@ class Patch(jsonpatch.JsonPatch):
     def values(self):
         """The values of the associated labels for the patch"""
         return tuple(self.metadata['values'])
+
+    def apply(self, obj, in_place=False):
+        """
+        Apply the patch to the given object.
+
+        The values of the patch operations are copied before they are inserted into the
+        patched object, so that a later operation writing inside a value added by an
+        earlier one does not modify the patch itself (it can be applied repeatedly).
+        """
+        return jsonpatch.JsonPatch(copy.deepcopy(self.patch)).apply(obj, in_place=in_place)
 
     def __repr__(self):
         """Representation of the object"""
